@@ -72,11 +72,13 @@ func c01OddFilter(c *rig.Ctx) {
 				for _, q := range cw.w.Peers {
 					q.Tap.Take()
 				}
-				mc := p.Send(pr.cl, src, pr.dst, pr.ack, nil, cmd)
+				hdr := c01PickHeaderDress(r)
+				c.Count("header:"+c01HeaderDresses[hdr], 1)
+				mc := c01SendDressed(cw.w, p, hdr, pr.cl, src, pr.dst, pr.ack, nil, cmd)
 				outs := p.Tap.Take()
 				res := rig.Classify(outs, mc)
 				got := fmt.Sprintf("reply=%d,ok=%d,err=%d", res.Replies, res.Success, res.Errors)
-				id := fmt.Sprintf("%s %s filter=%s (%s) from peer %d", pr.name, fn.Fn, form.name, rig.JS(form.f), sender)
+				id := fmt.Sprintf("%s %s filter=%s (%s) header[%s] from peer %d", pr.name, fn.Fn, form.name, rig.JS(form.f), c01HeaderDresses[hdr], sender)
 				c.Events(1)
 				okv := false
 				switch pr.want {
